@@ -1580,6 +1580,10 @@ end XotModel.Props
                   payload, the slot is linked into the free list a second time; the arena reached is
                   NOT well-formed and the id removed last from that slot is reported NOT removed again
                   (`C04_arena_stale_remove_double_free`; so `C04_arena_stale_remove_Statement` is false);
+    one-argument calls with a STALE id
+                  `detach`, `remove`, `remove_subtree` use the slot index only: the NEW OCCUPANT of the slot
+                  is detached / removed / removed with its subtree, as the refinement theorems say for its
+                  current id; the arena stays well-formed (`C04_arena_stale_acts_on_new_occupant`);
     iterators     from a removed id: no refusal; they follow whatever pointers the slot keeps; on a
                   slot whose five pointers are `None` they yield the removed id ITSELF and no children
                   (`C04_arena_stale_iterators`).
@@ -1742,6 +1746,37 @@ theorem C04_arena_stale_remove_Statement_false : ¬ C04_arena_stale_remove_State
   rw [h1] at this
   exact h3 this
 
+/-- **A stale id acts on the new occupant.**  `detach`, `remove`, `remove_subtree` (and `children`,
+    `reverse_children`) use nothing of their id but the slot index — on EVERY arena the call with any id
+    is the call with the current id of that slot.  For a STALE id that current id is a live id of
+    ANOTHER node: it is that node which is detached / removed / removed with its whole subtree, exactly
+    as the refinement theorems say (`C04_arena_refines_detach`, `_remove`, `_remove_subtree`); the arena
+    stays well-formed, nothing is refused. -/
+theorem C04_arena_stale_acts_on_new_occupant (a : Arena) (g : Arena.Shape) (r : Arena.Rep a g) (x : Arena.NodeId)
+    (hx : Arena.Stale a x) :
+    Arena.LiveId a (a.idAt x.index0) ∧ a.idAt x.index0 ≠ x ∧
+    Arena.detach a x = Arena.detach a (a.idAt x.index0) ∧ Arena.remove a x = Arena.remove a (a.idAt x.index0) ∧
+    Arena.removeSubtree a x = Arena.removeSubtree a (a.idAt x.index0) ∧
+    (∀ n, Arena.children a x n = Arena.children a (a.idAt x.index0) n ∧
+      Arena.reverseChildren a x n = Arena.reverseChildren a (a.idAt x.index0) n) ∧
+    (∃ a', Arena.detach a x = .done a' () ∧ Arena.Rep a' (g.detach x.index0)) ∧
+    (∃ a' l, Arena.removeSubtree a x = .done a' () ∧ Arena.Rep a' ((g.detach x.index0).prune l) ∧
+      (∀ u, u ∈ l ↔ Arena.Reach g.par u x.index0)) := by
+  obtain ⟨hl, hne⟩ := hx.current
+  obtain ⟨e1, e2, e3⟩ := Arena.one_arg_current a x
+  refine ⟨hl, hne, e1, e2, e3, fun n => Arena.children_index0 a x _ (by simp) n, ?_, ?_⟩
+  · obtain ⟨a', h, r', _⟩ := C04_arena_refines_detach a g r _ hl
+    rw [Arena.idAt_index0] at r'
+    exact ⟨a', e1.trans h, r'⟩
+  · obtain ⟨a', l, h, r', _, hm, _⟩ := C04_arena_refines_remove_subtree a g r x.index0 hl.2.1
+    exact ⟨a', l, e3.trans h, r', hm⟩
+
+/-- The index-only fact by itself, for every arena and every id. -/
+theorem C04_arena_one_arg_calls_index_only (a : Arena) (x y : Arena.NodeId) (h : x.index0 = y.index0) :
+    Arena.detach a x = Arena.detach a y ∧ Arena.remove a x = Arena.remove a y ∧
+    Arena.removeSubtree a x = Arena.removeSubtree a y :=
+  ⟨Arena.detach_index0 a x y h, Arena.remove_index0 a x y h, Arena.removeSubtree_index0 a x y h⟩
+
 /-- The iterators from an id whose slot has all five pointers `None` (a slot freed by `remove`): no
     refusal and no panic; they yield the id ITSELF — a removed id when the slot is free — and no
     children; the arena is unchanged. -/
@@ -1874,6 +1909,16 @@ example : Arena.children Arena.sampleF ⟨3, 0⟩ 9 = .done Arena.sampleF [] ∧
     Arena.children Arena.sampleH ⟨2, 0⟩ 9 = .done Arena.sampleH [⟨3, 0⟩] ∧
     Arena.descendants Arena.sampleH ⟨1, 0⟩ 9 = .done Arena.sampleH [⟨1, 0⟩] ∧
     Arena.descendants Arena.sampleH ⟨2, 1⟩ 9 = .done Arena.sampleH [⟨2, 1⟩, ⟨3, 0⟩] := by decide
+
+/-- The stale id `2:0` in `sampleH` (`1:0`, `2:1 [3:0]`): `detach`, `remove`, `remove_subtree` with it are the
+    calls with `2:1`; `remove_subtree(2:0)` removes the live nodes `2:1` and `3:0`. -/
+example : Arena.Stale Arena.sampleH ⟨2, 0⟩ ∧ Arena.sampleH.idAt 1 = ⟨2, 1⟩ :=
+  ⟨⟨_, rfl, by decide, by decide⟩, rfl⟩
+example : Arena.detach Arena.sampleH ⟨2, 0⟩ = Arena.detach Arena.sampleH ⟨2, 1⟩ ∧
+    Arena.removeSubtree Arena.sampleH ⟨2, 0⟩ = Arena.removeSubtree Arena.sampleH ⟨2, 1⟩ ∧
+    (match Arena.removeSubtree Arena.sampleH ⟨2, 0⟩ with
+     | .done a' () => a'.wf && Arena.isRemoved a' ⟨2, 1⟩ == .done a' true && Arena.isRemoved a' ⟨3, 0⟩ == .done a' true
+     | _ => false) = true := by decide
 
 /-- Non-vacuity of the hypotheses: `sampleF`, `sampleG`, `sampleH` are reachable, hence well-formed; the
     freed slot of `sampleF` is `Cleared`, the freed root slot of `sampleG` is `Unlinked` but not
